@@ -10,6 +10,7 @@ import CosetProofs.EncodeNoPanic
 import CosetProofs.Fuel
 import CosetProofs.Props.C02
 import CosetProofs.Cbor.Weight
+import CosetProofs.NoOof
 namespace Coset.Props.C01
 open Coset
 
@@ -58,6 +59,32 @@ theorem parsed_size_le_input (bs : Bytes) (v : Value) (h : readToValue bs = .ok 
 /-- the same for any prefix parse: size of the item plus the unread rest never exceeds the input. -/
 theorem parse_consumes (fuel d : Nat) (bs : Bytes) (v : Value) (r : Bytes) (h : Cbor.parse fuel d bs = .ok (v, r)) :
     v.size + r.length ≤ bs.length := Cbor.parse_weight fuel d bs v r h
+
+/-- no hidden time-out anywhere: none of the byte-level entry points of any type ever reports the model-only outcome "out of fuel" —
+    the parser's fuel, the header-family fuel (3·budget + 3) and the recipients' fuel (size of the value + 1) always suffice. -/
+theorem api_never_out_of_fuel (bs : Bytes) :
+    fromSlice hdrFromValue bs ≠ .err .outOfFuel ∧ fromSlice sigFromValue bs ≠ .err .outOfFuel ∧
+    fromSlice CoseSign.fromValue bs ≠ .err .outOfFuel ∧ fromSlice CoseSign1.fromValue bs ≠ .err .outOfFuel ∧
+    fromSlice rcpFromValue bs ≠ .err .outOfFuel ∧ fromSlice CoseEncrypt.fromValue bs ≠ .err .outOfFuel ∧
+    fromSlice CoseEncrypt0.fromValue bs ≠ .err .outOfFuel ∧ fromSlice CoseMac.fromValue bs ≠ .err .outOfFuel ∧
+    fromSlice CoseMac0.fromValue bs ≠ .err .outOfFuel ∧ fromSlice CoseKey.fromValue bs ≠ .err .outOfFuel ∧
+    fromSlice CoseKeySet.fromValue bs ≠ .err .outOfFuel ∧ fromSlice ClaimsSet.fromValue bs ≠ .err .outOfFuel ∧
+    fromSlice PartyInfo.fromValue bs ≠ .err .outOfFuel ∧ fromSlice SuppPubInfo.fromValue bs ≠ .err .outOfFuel ∧
+    fromSlice CoseKdfContext.fromValue bs ≠ .err .outOfFuel ∧ fromSlice Label.fromValue bs ≠ .err .outOfFuel :=
+  ⟨fromSlice_oof _ (by simp) bs, fromSlice_oof _ (by simp) bs, fromSlice_oof _ sign_oof bs, fromSlice_oof _ sign1_oof bs,
+   fromSlice_oof _ rcp_oof bs, fromSlice_oof _ encrypt_oof bs, fromSlice_oof _ encrypt0_oof bs, fromSlice_oof _ mac_oof bs,
+   fromSlice_oof _ mac0_oof bs, fromSlice_oof _ key_oof bs, fromSlice_oof _ keyset_oof bs, fromSlice_oof _ claims_oof bs,
+   fromSlice_oof _ (by simp) bs, fromSlice_oof _ (by simp) bs, fromSlice_oof _ kdf_oof bs, fromSlice_oof _ (by simp) bs⟩
+
+theorem tagged_api_never_out_of_fuel (bs : Bytes) :
+    fromTaggedSlice Gen.TAG_CoseSign CoseSign.fromValue bs ≠ .err .outOfFuel ∧ fromTaggedSlice Gen.TAG_CoseSign1 CoseSign1.fromValue bs ≠ .err .outOfFuel ∧
+    fromTaggedSlice Gen.TAG_CoseEncrypt CoseEncrypt.fromValue bs ≠ .err .outOfFuel ∧ fromTaggedSlice Gen.TAG_CoseEncrypt0 CoseEncrypt0.fromValue bs ≠ .err .outOfFuel ∧
+    fromTaggedSlice Gen.TAG_CoseMac CoseMac.fromValue bs ≠ .err .outOfFuel ∧ fromTaggedSlice Gen.TAG_CoseMac0 CoseMac0.fromValue bs ≠ .err .outOfFuel :=
+  ⟨fromTaggedSlice_oof _ _ sign_oof bs, fromTaggedSlice_oof _ _ sign1_oof bs, fromTaggedSlice_oof _ _ encrypt_oof bs,
+   fromTaggedSlice_oof _ _ encrypt0_oof bs, fromTaggedSlice_oof _ _ mac_oof bs, fromTaggedSlice_oof _ _ mac0_oof bs⟩
+
+/-- … and the bstr-wrapped protected header entry point. -/
+theorem protected_bstr_never_out_of_fuel (v : Value) : phFromBstr v ≠ .err .outOfFuel := by simp
 
 /-- re-encoding: `to_cbor_value` of headers, protected headers and signatures never panics, for any in-memory value. -/
 theorem encode_no_panic (h : Header) (s : CoseSignature) (p : ProtectedHeader) :
@@ -141,6 +168,9 @@ example : (fromSlice CoseSign.fromValue [0x84, 0x40, 0xa0, 0xf6, 0x82, 0x83, 0x4
 #print axioms parser_never_out_of_fuel
 #print axioms parsed_size_le_input
 #print axioms parse_consumes
+#print axioms api_never_out_of_fuel
+#print axioms tagged_api_never_out_of_fuel
+#print axioms protected_bstr_never_out_of_fuel
 #print axioms encode_no_panic
 #print axioms decoded_protected_serialises
 #print axioms sign1_followup_no_panic
